@@ -338,6 +338,8 @@ class Check:
             t = time.time()
 
             def stop_when():
+                if os.environ.get("SFSIM_REGRESSION") == "1" and self.agg["viol"]:
+                    return True  # tools/run_seeded.sh: only the verdict is wanted; the same seeds in the same order as the full run
                 classes = {vclass(v) for r in self.agg["viol"] for v in r["violations"]}
                 return len(self.agg["viol"]) >= 40 or (len(classes) >= 6 and len(self.agg["viol"]) >= 12)
 
@@ -366,6 +368,9 @@ class Check:
         n_new = 0
         kf_hit = set()
         max_classes = 4 if tier == "quick" else 6
+        fast = os.environ.get("SFSIM_REGRESSION") == "1"
+        if fast:
+            max_classes = 1
         for cls in sorted(byclass, key=lambda c: -len(byclass[c]))[:max_classes]:
             cands = sorted(byclass[cls], key=lambda r: r["size"])
             confirmed = None
@@ -394,7 +399,7 @@ class Check:
                     v["oracle"], v["observable"], json.dumps(v["detail"])[:500]))
                 continue
             res, chk = confirmed
-            script = minimise(prop, res["script"], cls, tier, budget_s=prop.MINIMISE_S[tier],
+            script = minimise(prop, res["script"], cls, tier, budget_s=prop.MINIMISE_S[tier] if not fast else 3,
                               job_timeout=prop.JOB_TIMEOUT, log=lambda s: self.say("  " + s))
             final = None
             flaky = False
